@@ -69,13 +69,13 @@ PROPS = {
         "assumptions": COMMON_ASSUMPTIONS + ["the vAMM is driven through its public execute/query entry points on cosmwasm-std mock dependencies"],
     },
     "C15": {
-        "lean_modules": ["Perp.Props.C15", "Perp.Props.EngineGuards"],
+        "lean_modules": ["Perp.Props.C15", "Perp.Props.EngineGuards", "Perp.Props.C15Band", "Perp.Props.SatTrace", "Perp.Props.SatFlows", "Perp.Props.SatC15", "Perp.Props.SatEWitness", "Perp.Props.SatE"],
         "runs": lambda tier, seed: [vamm_run(tier, seed)] + world_runs(tier, seed),
         "rule": VAMM_RULE,
         "assumptions": COMMON_ASSUMPTIONS,
     },
     "C17": {
-        "lean_modules": ["Perp.Props.C17", "Perp.Props.EngineGuards"],
+        "lean_modules": ["Perp.Props.C17", "Perp.Props.EngineGuards", "Perp.Props.SatTrace", "Perp.Props.SatFlows", "Perp.Props.SatC17", "Perp.Props.SatEWitness", "Perp.Props.SatE"],
         "runs": lambda tier, seed: [vamm_run(tier, seed)] + world_runs(tier, seed),
         "rule": VAMM_RULE + "; for every swap the harness also runs the same swap without a limit on a copy of the state (twin) to separate limit rejections from other rejections",
         "assumptions": COMMON_ASSUMPTIONS,
@@ -117,7 +117,7 @@ PROPS = {
         "rule": WORLD_RULE, "assumptions": WORLD_ASSUMPTIONS,
     },
     "C11": {
-        "lean_modules": ["Perp.Props.VammGuards", "Perp.Props.EngineMoney"],
+        "lean_modules": ["Perp.Props.VammGuards", "Perp.Props.EngineMoney", "Perp.Props.SatTrace", "Perp.Props.SatFlows", "Perp.Props.SatC11", "Perp.Props.SatBuffer", "Perp.Props.SatEWitness", "Perp.Props.SatE"],
         "runs": lambda tier, seed: world_runs(tier, seed) + [vamm_run(tier, seed, 600, 10000)],
         "rule": WORLD_RULE, "assumptions": WORLD_ASSUMPTIONS,
     },
